@@ -197,6 +197,14 @@ class ChunkIO(RuleBasedStateMachine):
         if dt.kind == "f":
             return rng.normal(0, 1e3, size=shape).astype(dt)
         hi = int(np.iinfo(dt).max)
+        if sc["encoding"] == "compressed_segmentation" and seed % 4 == 3:
+            # blocks whose lookup tables differ but agree in every cheap
+            # fingerprint (length, ends, byte sum, CRC-32)
+            from checks import c02_cseg
+            return c02_cseg.fingerprint_chunk(
+                {"channels": C, "size": [shape[3], shape[2], shape[1]],
+                 "block": sc["compressed_segmentation_block_size"]},
+                dt.newbyteorder("<"), rng).astype(dt)
         if sc["encoding"] == "compressed_segmentation" and seed % 2:
             pal = rng.integers(0, hi, size=3, dtype=np.uint64, endpoint=True)
             return pal[rng.integers(0, 3, size=shape)].astype(dt)
